@@ -126,6 +126,24 @@ def check_message(ctx, b: bytes, out, *, copies=True, site_extra=''):
                     f'want {want!r:.60} of {b!r:.80}')
                 stop = True
                 break
+    # several ranges with one origin in one FETCH: each is answered (the
+    # items carry the same name, so compare as a multiset)
+    if not stop and len(b) >= 2:
+        for o in (0, 1):
+            cs = sorted({1, len(b) - 1, len(b) + 1} - {0})
+            sp = ctx.do(0, b'FETCH * (' + b' '.join(
+                b'BODY.PEEK[]<%d.%d>' % (o, c) for c in cs) + b')')
+            if ctx.harness_errors or ctx.session(0).done:
+                return 'unparseable'
+            gotm = sorted(v or b'' for r in sp.untagged('FETCH')
+                          for k, v in r.data['_pairs']
+                          if k == ('BODY', b'', o))
+            wantm = sorted(b[o:o + c] for c in cs)
+            if gotm != wantm:
+                bad('partial-differs', f'FETCH (' + ' '.join(
+                    f'BODY[]<{o}.{c}>' for c in cs) + f') returned '
+                    f'{gotm!r:.100}, want {wantm!r:.100}')
+                break
     # BODYSTRUCTURE octets vs BODY[part]
     bs = d.get('BODYSTRUCTURE')
     if bs is not None:
